@@ -148,18 +148,23 @@ def out_path(t, o):
     return (t["pkg"] + "/" if t["pkg"] else "") + o["rel"]
 
 
+def all_outs(t):
+    """declared outputs incl. the bin_output (a file the command does not write: a checked-in script that is also an input)"""
+    return list(t["outs"]) + ([{"dir": False, "rel": t["bin"], "bin": True}] if t.get("bin") else [])
+
+
 def sorted_outs(t):
     """declared outputs in the canonical order used by model and commands (by definition string)"""
-    return sorted(t["outs"], key=lambda o: ("dir::" if o["dir"] else "") + o["rel"])
+    return sorted(all_outs(t), key=lambda o: ("dir::" if o["dir"] else "") + o["rel"])
 
 
 def all_out_paths(ws):
-    return {out_path(t, o): o["dir"] for t in ws["targets"].values() for o in t["outs"]}
+    return {out_path(t, o): o["dir"] for t in ws["targets"].values() for o in all_outs(t)}
 
 
 def wf(ws):
     """inputs disjoint from declared outputs (the WF predicate of the theorems), judged on patterns"""
-    outs = all_out_paths(ws)
+    outs = {out_path(t, o): o["dir"] for t in ws["targets"].values() for o in t["outs"]}
     for l, t in ws["targets"].items():
         pre = t["pkg"] + "/" if t["pkg"] else ""
         for p in outs:
@@ -223,7 +228,7 @@ def cmd_text(ws, l):
     if t.get("split"):
         L.append('n=$(wc -l < "$c.l")')
     for k, o in enumerate(sorted_outs(t)):
-        if o["rel"] in t.get("skip", []):
+        if o["rel"] in t.get("skip", []) or o.get("bin"):
             continue
         p = out_path(t, o)
         hdr = "printf 'T %s %s\\n' " + q(t["salt"]) + " " + q(p)
@@ -269,6 +274,8 @@ def build_files(ws):
             d["dependencies"] = list(t["deps"])
         if t["outs"]:
             d["outputs"] = [("dir::" if o["dir"] else "") + o["rel"] for o in t["outs"]]
+        if t.get("bin"):
+            d["bin_output"] = t["bin"]
         if t.get("fp"):
             d["fingerprint"] = dict(t["fp"])
         if t.get("nocache"):
@@ -534,7 +541,7 @@ def model_targets(ws, fixes, extra_files=None):
         deps = rdeps(ws, l)
         old = direct_target_deps(ws, l)
         outs = [{"dir": o["dir"], "path": out_path(t, o)} for o in sorted_outs(t)]
-        writes = [o for o in outs if o["path"][len(pre):] not in t.get("skip", [])]
+        writes = [o for o in outs if o["path"][len(pre):] not in t.get("skip", []) and o["path"][len(pre):] != t.get("bin")]
         out.append({
             "label": l,
             "cmd": {"salt": t["salt"], "beh": t.get("beh", 0), "writes": writes,
@@ -651,7 +658,8 @@ def compare(hist, real, model, multiset=True):
 # generators
 # ------------------------------------------------------------------------------------------------
 
-def gen_ws(rng, n=None, aliases=True, dirs=True, multi_out=True, nocache_p=0.0, checks_p=0.0, split_p=0.1, shared_p=0.25, dir_p=0.3):
+def gen_ws(rng, n=None, aliases=True, dirs=True, multi_out=True, nocache_p=0.0, checks_p=0.0, split_p=0.1, shared_p=0.25, dir_p=0.3,
+           outless_p=0.08, tool_p=0.0, multicheck=False):
     """layered DAG of n targets (dependencies point to earlier targets), 1-2 targets per package"""
     n = n or rng.randint(2, 6)
     ws = {"targets": {}, "aliases": {}, "files": {}}
@@ -701,7 +709,7 @@ def gen_ws(rng, n=None, aliases=True, dirs=True, multi_out=True, nocache_p=0.0, 
                 deps.append(d)
         outs = []
         r = rng.random()
-        if r < 0.08:
+        if r < outless_p:
             pass
         else:
             outs.append({"dir": False, "rel": rng.choice(["o%d.txt" % i, "out%d/o%d.txt" % (i, i)])})
@@ -714,13 +722,23 @@ def gen_ws(rng, n=None, aliases=True, dirs=True, multi_out=True, nocache_p=0.0, 
         if rng.random() < 0.15:
             t["fp"] = {"k": "v%d" % rng.randint(0, 3)}
         if rng.random() < checks_p:
-            flag = "ext/%s.flag" % name
-            exp = rng.choice([None, "ok\n"])
-            t["checks"] = [{"flag": flag, "exp": exp}]
-            if rng.random() < 0.5:
-                t["sets"] = [[flag, "ok\n"]]
-            else:
-                ws["files"][flag] = "ok\n"
+            nchk = rng.choice([1, 2, 2, 3]) if multicheck else 1
+            own = rng.random() < 0.5
+            for ci in range(nchk):
+                flag = "ext/%s%s.flag" % (name, "" if ci == 0 else "_%d" % ci)
+                exp = rng.choice([None, "ok\n"])
+                t["checks"].append({"flag": flag, "exp": exp})
+                if own:
+                    t["sets"].append([flag, "ok\n"])
+                else:
+                    ws["files"][flag] = "ok\n"
+        if rng.random() < tool_p:
+            # a checked-in script that is both an input and the bin_output (docs/topics/binary-outputs)
+            tool = "tool%d.sh" % i
+            ws["files"][pkg + "/" + tool] = "#!/bin/sh\necho v%d\n" % rng.randint(0, 99)
+            t["globs"] = t["globs"] + [tool]
+            t["bin"] = tool
+            t["nocache"] = rng.random() < 0.6
         # splitter: >= 2 inputs, 2 file outputs, output k = copy of input k (an edit can make the outputs swap contents)
         if rng.random() < split_p and kind in ("star", "src") and not excl:
             pre = pkg + "/"
@@ -889,6 +907,16 @@ def gen_edit(rng, ws, kinds=None):
             return None
         ws["files"][pth] = "q%d\n" % rng.randint(100, 999)
         return ws, [], "content of %s (excluded by %s only)" % (pth, x)
+    if k == "toolcontent":
+        tl = [x for x in labels if ws["targets"][x].get("bin") and any(x in rdeps(ws, y) for y in labels)] or \
+             [x for x in labels if ws["targets"][x].get("bin")]
+        if not tl:
+            return None
+        x = rng.choice(tl)
+        xt = ws["targets"][x]
+        pth = (xt["pkg"] + "/" if xt["pkg"] else "") + xt["bin"]
+        ws["files"][pth] = "#!/bin/sh\necho v%d\n" % rng.randint(100, 999)
+        return ws, [], "content of %s (input and bin_output of %s)" % (pth, x)
     if k == "nocache":
         t["nocache"] = not t.get("nocache")
         return ws, [], "toggle no-cache of %s" % l
@@ -905,7 +933,7 @@ def gen_edit(rng, ws, kinds=None):
         ws["files"][f] = "ok\n" if k == "flagon" else "no\n"
         return ws, [], ("establish" if k == "flagon" else "spoil") + " external condition %s" % f
     if k == "beh":
-        t["beh"] = rng.choice([0, 1, 1, 2]) if t.get("beh", 0) == 0 else 0
+        t["beh"] = rng.choice([1, 1, 2, 2]) if t.get("beh", 0) == 0 else 0
         return ws, [], "behaviour of %s := %d" % (l, t["beh"])
     if k == "skipout":
         if t.get("skip"):
@@ -916,6 +944,14 @@ def gen_edit(rng, ws, kinds=None):
             return None
         t["skip"] = [rng.choice(fo)]
         return ws, [], "%s stops writing %s" % (l, t["skip"][0])
+    if k == "skipfresh":
+        # the command stops writing one declared output (first / middle / last, file or dir::) and the output is not there
+        cands = [o for o in t["outs"]]
+        if not cands or t.get("skip"):
+            return None
+        o = rng.choice(cands)
+        t["skip"] = [o["rel"]]
+        return ws, [[out_path(t, o), None]], "%s stops writing %s%s, which is deleted" % (l, "dir::" if o["dir"] else "", o["rel"])
     if k == "addcheck":
         flag = "ext/%s.flag" % t["name"]
         if t.get("checks"):
@@ -971,7 +1007,11 @@ def gen_history(rng, family="mixed", nsteps=None, full=False, minimal=None):
     if family in ("nocache", "taint", "minimal-nocache"):
         kw["nocache_p"] = 0.3
     if family == "checks":
-        kw["checks_p"] = 0.6
+        kw.update(checks_p=0.6, multicheck=True, multi_out=True)
+    if family in ("outless", "taintdis"):
+        kw.update(outless_p=0.4, nocache_p=0.25)
+    if family == "tool":
+        kw.update(tool_p=0.5)
     if family == "swap":
         kw.update(split_p=0.6, dirs=False)
     if family == "shared":
@@ -979,6 +1019,33 @@ def gen_history(rng, family="mixed", nsteps=None, full=False, minimal=None):
     if family == "dirs":
         kw.update(dir_p=0.8)
     ws = gen_ws(rng, **kw)
+    if family == "tool":
+        # make sure some script target (input == bin_output, usually no-cache) has a dependant that reads the script
+        order = sorted(ws["targets"], key=lambda x: int(ws["targets"][x]["name"][1:]))
+        tools = [x for x in order if ws["targets"][x].get("bin")]
+        if not tools:
+            x = order[0]
+            xt = ws["targets"][x]
+            tool = "tool%s.sh" % xt["name"][1:]
+            ws["files"][xt["pkg"] + "/" + tool] = "#!/bin/sh\necho v0\n"
+            xt["globs"] = xt["globs"] + [tool]
+            xt["bin"] = tool
+            xt["nocache"] = True
+            tools = [x]
+        x = tools[0]
+        ws["targets"][x]["nocache"] = True
+        later = [y for y in order if order.index(y) > order.index(x)]
+        if later:
+            y = later[0]
+            yt = ws["targets"][y]
+            yt["nocache"] = False           # a cached dependant: it must be invalidated when the script changes
+            if yt.get("bin"):
+                yt["globs"] = [g for g in yt["globs"] if g != yt["bin"]]
+                yt["bin"] = None
+            if not yt["outs"]:
+                yt["outs"] = [{"dir": False, "rel": "o%s.txt" % yt["name"][1:]}]
+            if x not in rdeps(ws, y):
+                yt["deps"].append(x)
     hist = {"ws": ws, "algo": rng.choice(["xxh3", "sha256"]), "steps": [], "tags": [family]}
     cur = ws
     versions = [ws]
@@ -1006,6 +1073,32 @@ def gen_history(rng, family="mixed", nsteps=None, full=False, minimal=None):
         return hist
     for _ in range(n):
         r = rng.random()
+        if family == "checks" and r < 0.3:
+            # the checked external condition is destroyed, the target runs and fails its check, the condition is
+            # re-established from outside: the target must run again (nothing may have been cached by the failed run)
+            ext = sorted({c["flag"] for t_ in cur["targets"].values() for c in t_.get("checks", [])
+                          if c["flag"] in cur["files"] and not any(c["flag"] == p_ for p_, _ in t_.get("sets", []))})
+            if ext:
+                f = rng.choice(ext)
+                keep = cur["files"][f]
+                off = copy.deepcopy(cur)
+                del off["files"][f]
+                hist["steps"].append({"k": "edit", "ws": off, "writes": [[f, None]], "what": "destroy external condition %s" % f})
+                cur = off
+                build(["//..."])
+                if rng.random() < 0.4:
+                    e = gen_edit(rng, cur, ["content", "salt"])
+                    if e and wf(e[0]):
+                        hist["steps"].append({"k": "edit", "ws": e[0], "writes": e[1], "what": e[2]})
+                        cur = e[0]
+                        build(["//..."])
+                on = copy.deepcopy(cur)
+                on["files"][f] = keep
+                hist["steps"].append({"k": "edit", "ws": on, "writes": [], "what": "establish external condition %s" % f})
+                cur = on
+                versions.append(cur)
+                build(["//..."])
+                continue
         if family == "dirs" and r < 0.3 and len(versions) >= 2:
             cur = versions[-2]
             versions.append(cur)
@@ -1030,9 +1123,21 @@ def gen_history(rng, family="mixed", nsteps=None, full=False, minimal=None):
                 hist["steps"].append({"k": "edit", "ws": cur, "writes": tp[0], "what": "tamper: " + tp[1]})
                 build()
                 continue
-        if family in ("taint", "nocache", "taintedit") and r < (0.7 if family == "taintedit" else 0.4):
+        if family in ("taint", "nocache", "taintedit", "taintdis", "outless") and r < (0.7 if family in ("taintedit", "taintdis") else 0.4):
             l = rng.choice(sorted(cur["targets"]))
-            hist["steps"].append({"k": "taint", "patterns": [l] if rng.random() < 0.8 else ["//..."]})
+            rr = rng.random()
+            pats = [l]
+            if rr < 0.2:
+                pats = ["//..."]
+            elif rr < 0.45 and rdeps(cur, l):
+                pats = [l, rng.choice(rdeps(cur, l))]            # a target and one of its dependencies
+            elif rr < 0.55:
+                pats = ["//" + cur["targets"][l]["pkg"] + "/..."]
+            hist["steps"].append({"k": "taint", "patterns": pats})
+            if family in ("taintdis", "outless") and rng.random() < 0.6:
+                build(enable_cache=False)                          # the tainted target runs with the cache disabled
+                build()
+                continue
             if rng.random() < 0.5:
                 # taint + edit of the same target: the tainted target has a cache miss anyway
                 e2 = copy.deepcopy(cur)
@@ -1091,6 +1196,8 @@ def gen_history(rng, family="mixed", nsteps=None, full=False, minimal=None):
             kinds = None
             if family == "alias":
                 kinds = ["viaalias", "viaalias", "realias", "adddep", "content"]
+            if family == "tool":
+                kinds = ["toolcontent", "toolcontent", "toolcontent", "content", "salt"]
             if family == "swap":
                 kinds = ["swapin", "swapin", "swapin", "content", "salt"]
             if family == "shared":
@@ -1098,7 +1205,7 @@ def gen_history(rng, family="mixed", nsteps=None, full=False, minimal=None):
             if family == "dirs":
                 kinds = ["addfile", "addfile", "addfile", "rmfile", "content", "salt"]
             if family == "checks":
-                kinds = ["flagoff", "flagoff", "flagon", "flagbad", "beh", "skipout", "addcheck", "content", "salt"]
+                kinds = ["flagoff", "flagoff", "flagon", "flagon", "flagbad", "beh", "beh", "skipout", "skipfresh", "skipfresh", "addcheck", "content", "salt"]
             e = gen_edit(rng, cur, kinds)
             if e and wf(e[0]):
                 break
@@ -1248,7 +1355,7 @@ def run_both(ctx, hists, scratch_name="h", fixes=ALL_FIXES, par=4, force_minimal
 
 def selected_outputs(ws, patterns):
     """declared output paths of the targets a build of `patterns` processes"""
-    return sorted(out_path(ws["targets"][l], o) for l in selected(ws, patterns) for o in ws["targets"][l]["outs"])
+    return sorted(out_path(ws["targets"][l], o) for l in selected(ws, patterns) for o in all_outs(ws["targets"][l]))
 
 
 def clean_oracle(ctx, hist, real, scratch_name="clean", par=4, which="last"):
@@ -1428,6 +1535,14 @@ def tkey(ws, l):
     ins = [(r, ws["files"].get(pre + r)) for r in resolved_inputs(ws, l)]
     return json.dumps([cmd_text(ws, l), ins, [(o["dir"], o["rel"]) for o in sorted_outs(t)], sorted(t.get("fp", {}).items()),
                        rdeps(ws, l), bool(t.get("nocache")), t.get("checks", [])], sort_keys=True)
+
+
+def state_key(ws, l):
+    """what the cache key of a dependency-free target is made of (checks and tags are not part of it)"""
+    t = ws["targets"][l]
+    pre = t["pkg"] + "/" if t["pkg"] else ""
+    ins = [(r, ws["files"].get(pre + r)) for r in resolved_inputs(ws, l)]
+    return json.dumps([cmd_text(ws, l), ins, [(o["dir"], o["rel"]) for o in sorted_outs(t)], sorted(t.get("fp", {}).items())], sort_keys=True)
 
 
 def descendants(ws, roots):
